@@ -200,7 +200,9 @@ REUSE_CALLS = [(0.0, 'central', 1, 2), (1e4, 'central', 1, 2), (1.0, 'forward', 
                (1.0, 'multicomplex', 1, 2), ((3000.0, 0.5), 'backward', 2, 1), ((0.0, 1e4), 'central', 1, 2),
                (1.0, 'complex', 1, 4), (0.0, 'central', 1, 6)]      # same (method, n), another order
 REUSE_GENS = [('Min', {}), ('Max', {}), ('Min', {'num_extrap': 4}), ('Max', {'num_steps': None}),
-              ('Min', {'base_step': 0.25}), ('C', {}), ('C', {'path': 'spiral'})]
+              ('Min', {'base_step': 0.25}), ('C', {}), ('C', {'path': 'spiral'}),
+              # options given as ndarrays stay the caller's objects: the generator must not write into them
+              ('Min', {'base_step': ARR}), ('Max', {'base_step': ARR})]
 
 
 def reuse_work(chunk):
